@@ -178,6 +178,8 @@ VITAL = {
     'worlds.pipe': ['handed', 'reply_judged'],
     'worlds.fsm': ['handed', 'reply_judged'],
     'worlds.disk': ['handed', 'reply_judged'],
+    'worlds.timer': ['handed', 'reply_judged'],
+    'worlds.realw': ['handed', 'end_state_checked'],
 }
 
 
